@@ -4,6 +4,6 @@ import "verif/harness/pbt"
 
 func init() {
 	pbt.Register(pbt.Sub[Scenario]{Name: "scenario-mem", Weight: 1, Gen: genMem, Check: checkScenario})
-	pbt.Register(pbt.Sub[Scenario]{Name: "scenario-real", Weight: 0.1, Gen: genReal, Check: checkScenario})
+	pbt.Register(pbt.Sub[Scenario]{Name: "scenario-real", Weight: 0.3, Gen: genReal, Check: checkScenario})
 	pbt.Register(pbt.Sub[Stress]{Name: "stress", Weight: 0.5, Gen: genStress, Check: checkStress})
 }
